@@ -103,19 +103,21 @@ package dagordering
 //@   ensures  bufinv(buf)
 //@   ensures  [limits] len(lruMap[buf.incompletes.lru]) % 4294967296 <= limit.Num && lruW[buf.incompletes.lru] <= limit.Size
 //@   ensures  [flags] forall(w *event, (old(w.released) ==> w.released) && gRelCnt[w] >= old(gRelCnt[w]))
-//@   ensures  [spilled] forall(k interface{}, old(inbuf(buf, k)) && !inbuf(buf, k) ==> unbox(old(bufval(buf, k)), "*event").released)
+//@   ensures  [spilled] forall(k interface{}, old(inbuf(buf, k)) && !inbuf(buf, k) ==> now(unbox(old(bufval(buf, k)), "*event")).released)
 //@   ensures  [kept] forall(k interface{}, inbuf(buf, k) ==> old(inbuf(buf, k)) && bufval(buf, k) == old(bufval(buf, k)))
 //@   loop 1 modifies all(event).released, all(event).err, gRelCnt[*], lruMap[buf.incompletes.lru][*], lruW[buf.incompletes.lru]
 //@   loop 1 invariant bufinv(buf)
 //@   loop 1 invariant forall(w *event, (old(w.released) ==> w.released) && gRelCnt[w] >= old(gRelCnt[w]))
-//@   loop 1 invariant forall(k interface{}, old(inbuf(buf, k)) && !inbuf(buf, k) ==> unbox(old(bufval(buf, k)), "*event").released)
+//@   loop 1 invariant forall(k interface{}, old(inbuf(buf, k)) && !inbuf(buf, k) ==> now(unbox(old(bufval(buf, k)), "*event")).released)
 //@   loop 1 invariant forall(k interface{}, inbuf(buf, k) ==> old(inbuf(buf, k)) && bufval(buf, k) == old(bufval(buf, k)))
 //@
+//@ // within(buf): the buffer holds no more events and bytes than its limits
+//@ spec within(buf *EventsBuffer) bool = len(lruMap[buf.incompletes.lru]) % 4294967296 <= buf.limit.Num && lruW[buf.incompletes.lru] <= buf.limit.Size
 //@ func (*EventsBuffer).PushEvent
 //@   requires bufinv(buf) && de != nil
 //@   modifies all(event).released, all(event).err, gConn[*], gProcessed[*], gRelCnt[*], lruMap[buf.incompletes.lru][*], lruW[buf.incompletes.lru]
 //@   ensures  bufinv(buf)
-//@   ensures  [limits] len(lruMap[buf.incompletes.lru]) % 4294967296 <= buf.limit.Num && lruW[buf.incompletes.lru] <= buf.limit.Size
+//@   ensures  [limits] old(within(buf)) ==> within(buf)
 //@   ensures  [flags] forall(w *event, (old(w.released) ==> w.released) && (old(gProcessed[w]) ==> gProcessed[w]) && gRelCnt[w] >= old(gRelCnt[w]))
 //@
 //@ // Clear: the buffer is empty and every wrapper that was buffered has been reported released
@@ -123,4 +125,4 @@ package dagordering
 //@   requires bufinv(buf)
 //@   modifies all(event).released, all(event).err, gRelCnt[*], lruMap[buf.incompletes.lru][*], lruW[buf.incompletes.lru]
 //@   ensures  bufinv(buf) && len(lruMap[buf.incompletes.lru]) % 4294967296 == 0
-//@   ensures  [released] forall(k interface{}, old(inbuf(buf, k)) && !inbuf(buf, k) ==> unbox(old(bufval(buf, k)), "*event").released)
+//@   ensures  [released] forall(k interface{}, old(inbuf(buf, k)) && !inbuf(buf, k) ==> now(unbox(old(bufval(buf, k)), "*event")).released)
